@@ -14,7 +14,6 @@ NOT_APPLICABLE = {
     "C05": "semantics preservation of a run-time graph rewrite keyed on object identity; nothing in the code's shape decides it",
     "C18": "distribution (mean, covariance) of drawn samples is statistical; no necessary structural clause found that is not already a run-time shape error",
     "C19": "KL value/gradient/metric equal sample averages: numerical identity over generated Hamiltonians",
-    "C28": "agreement of two model implementations and variance normalisation across resolutions: numerical",
 }
 
 
